@@ -289,6 +289,7 @@ def run(rep, progs, tier):
     rep.trusted = ["rustc MIR construction", "mpdfacts exporter", "nom 7 streaming combinator semantics", "bytes::BytesMut semantics"]
     rep.assume("blocking-connection buffer arithmetic (total_received <= recv_buf.len(), content preservation of split_off/unsplit) is not decided")
     for cfg, prog in progs.items():
+        READS.bind(prog)
         streaming_rule(rep, prog, cfg)
         consume_rule(rep, prog, cfg)
         persist_rule(rep, prog, cfg)
